@@ -17,8 +17,12 @@ RESTR = {'none': [], 'me': [['me']], 'other': [['other']], 'me_me': [['me'], ['m
          'other_other': [['other'], ['other2']], 'meAndOther': [['other', 'me']]}
 
 
+SP_ACS_ART = 'https://sp.verif.example/acs/artifact'
+BINDING_ART = 'urn:oasis:names:tc:SAML:2.0:bindings:HTTP-Artifact'
+
+
 def urls(binding):
-    own = env.SP_ACS_POST if binding == 'post' else env.SP_ACS_REDIRECT
+    own = {'post': env.SP_ACS_POST, 'redirect': env.SP_ACS_REDIRECT, 'artifact': SP_ACS_ART}[binding]
     other = env.SP_ACS_REDIRECT if binding == 'post' else env.SP_ACS_POST
     return {'own': own, 'url': own, 'otherBinding': other, 'patternOnly': 'https://sp.verif.example/acs/other',
             'foreign': 'https://evil.example/acs', 'entityid': env.SP, 'none': None}
@@ -71,10 +75,13 @@ def replay(case):
         kw['endpoints'] = {'assertion_consumer_service': [other]}
     if scn.get('endpoint') == 'triples':
         kw['endpoints'] = {'assertion_consumer_service': [(env.SP_ACS_POST, env.BINDING_POST, 1), (env.SP_ACS_REDIRECT, env.BINDING_REDIRECT, 2)]}
+    if scn['binding'] == 'artifact':
+        kw['endpoints'] = {'assertion_consumer_service': [(env.SP_ACS_POST, env.BINDING_POST), (env.SP_ACS_REDIRECT, env.BINDING_REDIRECT),
+                                                          (SP_ACS_ART, BINDING_ART)]}
     sp = spc.sp_for(**kw)
     doc = build(scn)
     conv = {'entity_id': env.SP, 'remote_addr': '0.0.0.0', 'request_uri': '/acs'} if scn['conv'] else None
-    binding = env.BINDING_POST if scn['binding'] == 'post' else env.BINDING_REDIRECT
+    binding = {'post': env.BINDING_POST, 'redirect': env.BINDING_REDIRECT, 'artifact': BINDING_ART}[scn['binding']]
     outstanding = dict((k, '/came/from/same') for k in OUTSTANDING) if scn.get('sameFrom') else dict(OUTSTANDING)
     if scn.get('mtype') == 'attribute':
         obs = observe_attribute(sp, doc)
@@ -101,7 +108,7 @@ def main():
         keep = []
         for c in cases:
             s = c['scn']
-            core = (not s['enc'] and s['binding'] == 'post') or s['endpoint'] != 'configured' or s['conf2'] != 'absent' or s['sameFrom'] or s['mtype'] == 'attribute'
+            core = (not s['enc'] and s['binding'] == 'post') or s['endpoint'] != 'configured' or s['binding'] == 'artifact' or s['conf2'] != 'absent' or s['sameFrom'] or s['mtype'] == 'attribute'
             decided = c['mustAccept'] or c['mustReject']
             if (core and decided and chk.rng.random() < 0.5) or chk.rng.random() < 0.06:
                 keep.append(c)
